@@ -38,13 +38,14 @@ type Pay struct {
 	P    *PInner
 	PP   **int
 	NV   PNested
+	SI   []interface{}
 	T    time.Time
 }
 
 func ip(v int) *int { return &v }
 
 // container fields and their three fillings: 0 nil/zero, 1 empty, 2 non-empty
-const nPayFields = 11
+const nPayFields = 12
 
 func fillPay(p *Pay, field, mode int) {
 	switch field {
@@ -123,6 +124,14 @@ func fillPay(p *Pay, field, mode int) {
 			p.NV = PNested{S: []int{}, M: map[string]int{}}
 		case 2:
 			p.NV = PNested{S: []int{1, 2}, M: map[string]int{"z": 26}}
+		}
+	case 11:
+		switch mode {
+		case 1:
+			p.SI = []interface{}{}
+		case 2:
+			// the shape of a decoded JSON array: containers inside interface values
+			p.SI = []interface{}{map[string]interface{}{"k": "v"}, []interface{}{"a", "b"}, "s"}
 		}
 	}
 }
@@ -283,6 +292,28 @@ var payMutators = []struct {
 			return false
 		}
 		p.NV.S[0] = 99
+		return true
+	}},
+	{"SI[0][k]", func(p *Pay) bool {
+		if len(p.SI) == 0 {
+			return false
+		}
+		m, ok := p.SI[0].(map[string]interface{})
+		if !ok {
+			return false
+		}
+		m["k"] = "changed"
+		return true
+	}},
+	{"SI[1][0]", func(p *Pay) bool {
+		if len(p.SI) < 2 {
+			return false
+		}
+		l, ok := p.SI[1].([]interface{})
+		if !ok || len(l) == 0 {
+			return false
+		}
+		l[0] = "changed"
 		return true
 	}},
 	{"NV.M[z]", func(p *Pay) bool {
@@ -502,9 +533,21 @@ func runC14(c *Ctx) {
 					}
 					w.open()
 					db = w.DB
-					for name, r := range reads(db, uuid, nil) {
+					first := reads(db, uuid, nil)
+					for name, r := range first {
 						if j := jsonOf(r); j != want {
 							fail("mutate-then-reopen|"+name, fmt.Sprintf("after mutations of %s and reopen, %s returns %s, accepted value was %s", payMutators[mi].Name, name, j, want))
+							return
+						}
+					}
+					// (4) the first reads on the new handle miss the cache: mutate what they returned, read again
+					for _, r := range first {
+						payMutators[mi].F(r)
+						r.Key = 4242
+					}
+					for name, r := range reads(db, uuid, nil) {
+						if j := jsonOf(r); j != want {
+							fail("mutate-returned-after-reopen|"+name, fmt.Sprintf("after reopen, mutating %s of the objects returned by the first reads changes what %s returns: %s, accepted value was %s", payMutators[mi].Name, name, j, want))
 							return
 						}
 					}
